@@ -74,3 +74,28 @@ claim('C17',
       'Bounded proof over all interleavings (cbmc concurrency mode, sequential consistency) of 2 threads x 1 call (quick) and 2x2 / 3x1 (thorough) through the real ccrw2.h lock macros and the real cache-update code of fft4g_cache.h: locks initialised once and before use, released only when held, tables never reallocated/re-sized during another thread\'s transform, writer exclusive, termination with all locks free and fft_len == max length.',
       'Known finding KF_C17_LAZY_INIT (unguarded first-use initialisation) is reported as KNOWN-FINDING and excluded from the proved twin by initialising before the threads start. Trusted: cbmc partial-order encoding; lock model; table pointers encoded as integer handles (mechanical rewrite regenerated from the current header); lengths in {8,16,32}; vr32 fade_coefs init and _soxr_trace_level race not encoded.',
       technique='bounded model checking of concurrent C (cbmc 6.11 concurrency mode: symbolic partial-order encoding of all interleavings under sequential consistency, SAT/cadical) over the real lock macros and cache-update code with modelled OpenMP locks')
+
+
+# ---- refinements after the second build phase (append-only: later claim() calls replace the earlier text) ----
+HY = 'bounded model checking of the real C translation units (goto-cc + cbmc 6.11; SAT: minisat/kissat/cadical), symbolic inputs, unwinding assertions, vacuity witness, native ASan/UBSan replay; plus ENV-(b): the plans of the real planner compared with the envelope the kernel obligations assume (native enumeration over a stated configuration list, labelled as such)'
+claim('C03',
+      'Bounded proof, inductive steps over the real accounting code of cr.c (abstract stage kernels), the real dft_stage_fn block bookkeeping (decimation phase carry), the real stage kernels (output count == clock ticks that fit), fifo.h; soxr.c latches end-of-input, reaches every channel engine (also on the split/split path) and the pull loop starts the drain in the call in which the input function reports end.',
+      'Trusted: cbmc/kissat; IEEE division stands for N*orate/irate; flush-division obligations for io_ratio in {2,4,1/2,1/4} with N < 2^31 (quick) plus 8-bit ratios with N < 2^16 (thorough); owed - delivered and olen < 2^31; ENV-(b) closes planner vs kernels per configuration only.', technique=HY)
+claim('C04',
+      'Bounded proof per real stage kernel and for the real dft_stage_fn (one call from any clock value / phase): exact advance of the virtual read position; dft_stage_init latency compensation; ENV-(b) incl. the rate identity (product of the stage ratios == io_ratio within the clock resolution) and start phase for ~750 real plans; E4: first-frame alignment / symmetry of measured whole-conversion prototypes.',
+      'Partial: the planner-side derivation of at/step/preload from io_ratio is decided per configuration of a stated list (native), not for all ratios; kernels: step in [0.5,8), <= 4 samples per call.', technique=HY + '; E4 exact arithmetic on measured impulse responses')
+claim('C05',
+      'Bounded proof: split lemma for every real stage kernel (self-composition), real dft_stage_fn (a block is taken exactly when buffered; input_size is the next block), fifo.h (content preserved across compaction/growth, read/trim), driver frame conservation incl. the length of the end-of-input padding, one real soxr.c push/pull call handing frames over once, in order.',
+      'Trusted: cbmc; data-independence argument (paper step) from equal positions to bit-identical samples; DFT numerics stubbed; FIFO lemma on concrete offset shapes with symbolic data.', technique=HY)
+claim('C07',
+      'Bounded proof per obligation: pointer/bounds/overflow/shift/conversion checks over one real API call from any state (soxr.c/data-io.c), the real stage kernels incl. the SSE kernels h8/vpoly0, dft_stage_fn, fifo.h, the planner pieces (set_dft_length, dft_stage_init, validation prefix, halving loop, quick-recipe _soxr_init), buffer-contract assertions; ENV-(b) for ~750 real plans.',
+      'Trusted: cbmc/SAT; abstract engine contract; constant-size caller allocations with canaries; frames per call <= 3-4; inside pffft/fft4g transforms, vr_process as a whole and the AVX kernels are not covered.', technique=HY)
+claim('C08',
+      'Bounded proof with unwinding assertions over the real loops of cr.c (_soxr_process, stage_process, halving loop of _soxr_init) and soxr.c (pull loop); progress obligation per real kernel and for dft_stage_fn (time- and frequency-domain paths); quick-recipe _soxr_init inside ENV(cubic) for every io_ratio; ENV-(b): input_size > pre_post for every stage of ~750 real plans (ratios up to 100000:1).',
+      'Trusted: cbmc; abstract stage progress contract; requests <= 4 frames; rational-search loop and the rest of the planning loop not encoded; non-finite ratios and io_ratio < 2^-33 (quick recipe) outside.', technique=HY)
+claim('C20',
+      'Bounded proof over the real soxr_create/initialise/fatal_error/soxr_clear/soxr_set_io_ratio/soxr_delete0 with every allocation event failing or not independently and engine creation failing for any channel: no NULL dereference, error reported AND recorded in a surviving object, no leak, every engine closed once; engine side: the real _soxr_init (quick recipe) with every malloc/calloc failing or not.',
+      'Known finding KF_C20_FIFO_CREATE (fifo_create result ignored) reported as KNOWN-FINDING; the other allocation sites of the engines (filter design, DFT set-up, poly-phase tables, FIFO growth, vr32.c) are NOT decided.')
+claim('C16',
+      'Bounded proof over the real vr32.c arithmetic: slew set-up (set_step_step) and vr_set_io_ratio during a cross-fade (both streams reach the same ratio), per-frame stepping of poly_fir_u/d, forwarding of ratio/slew to every channel and refusal by constant-rate engines (real soxr.c).',
+      'Partial: audio statements not decided; the stage-switch block inside vr_process gave no verdict (seed C16 not detected); slew lengths from a stated list, |target-step| < 2^20 (quick).')
